@@ -114,6 +114,24 @@ pub fn run(run: &Run) {
             false
         }
     }));
+    {
+        let mut all = mark_neighbour_strings(0);
+        all.extend(mark_neighbour_strings(1));
+        battery(run, "mark_neighbours", &all, &|s, l| profs.iter().all(|p| match check(run, *p, s, l) {
+            Ok(()) => true,
+            Err(v) => {
+                run.violate(v);
+                false
+            }
+        }));
+    }
+    battery(run, "block_representatives", &block_representative_strings(), &|s, l| profs.iter().all(|p| match check(run, *p, s, l) {
+        Ok(()) => true,
+        Err(v) => {
+            run.violate(v);
+            false
+        }
+    }));
     collisions(run, "fingerprint_collisions", &|s, l| profs.iter().all(|p| match check(run, *p, s, l) {
         Ok(()) => true,
         Err(v) => {
